@@ -8,7 +8,7 @@
      Scenario.occupancies_at_time_step, obstacles_by_role_and_type, obstacles_by_position_intervals,
      obstacle_states_at_time_step                        scenario/scenario.py:1046-1201
      Rectangle / Circle / Polygon / ShapeGroup.rotate_translate_local   geometry/shape.py:178-188, 298-312, 407-426, 515-534
-     occupancy_shape_from_state                          geometry/shape.py:555-632 (after fix)
+     occupancy_shape_from_state                          geometry/shape.py:554-632 (after fix)
      PMState.orientation                                 scenario/state.py:383-392
    Part (i) is generic in the type [S] of states and [R] of regions; errors of the implementation are [Err]. *)
 From Coq Require Import QArith Qabs ZArith Bool List Qminmax.
@@ -209,7 +209,7 @@ Section Place.
     rotate_translate_pts ctr o c s (rect_corners l w).
 End Place.
 
-(* ---- the attributes of a state that occupancy_shape_from_state reads (geometry/shape.py:555-632) *)
+(* ---- the attributes of a state that occupancy_shape_from_state reads (geometry/shape.py:554-632) *)
 Section FromState.
   Variable tau : Q.
   Variable fuel : nat.
